@@ -194,13 +194,16 @@ def _shape(c):
 
 
 def sample(ctx, cases, n):
-    """Seeded stratified sample: round-robin over (domain, name of the hooks directory, bad kind, #hooks, position of
-    executable files relative to lib/hidden sub-directories), so that rare shapes are not left to chance."""
+    """Seeded stratified sample: round-robin over (domain, name of the hooks directory, bad kind, #hooks, whether the
+    load order separates byte-wise from component-wise order, position of executable files relative to lib/hidden
+    sub-directories), so that rare shapes are not left to chance."""
     rnd = random.Random(ctx.seed)
     strata = collections.OrderedDict()
     for c in cases:
         nh = len(c["once"]) + len(c["atmost"])
-        strata.setdefault((c["dom"], c["root"], c["kind"], min(nh, 3), ",".join(sorted(_shape(c)))), []).append(c)
+        names = c["once"] + c["atmost"]
+        order = names != sorted(names, key=lambda x: x.split("/"))   # byte-wise order differs from component-wise order
+        strata.setdefault((c["dom"], c["root"], c["kind"], min(nh, 3), order, ",".join(sorted(_shape(c)))), []).append(c)
     for v in strata.values():
         rnd.shuffle(v)
     keys = list(strata)
@@ -395,7 +398,8 @@ def check_c20(ctx):
             "executable-below-nested-lib", "executable-below-nested-hidden-dir", "executable-deeper-below-lib",
             "executable-hidden-file", "executable-yaml", "hook-in-subdir", "same-basename-in-different-dirs",
             "string-order-differs-from-component-order", "hooks-behind-the-bad-one", "hooks-before-the-bad-one",
-            "file-without-x-bit", "hook-named-lib"]
+            "file-without-x-bit", "hook-named-lib", "hook-named-X.YAML", "hook-named-x.yaml.sh", "hook-below-libs",
+            "executable-json", "executable-md", "executable-txt", "file-x-bit-o", "file-x-bit-u"]
     missing = [f for f in need if not feats.get(f)]
     if missing:
         raise Infra("the selected cases do not cover: %s" % ", ".join(missing))
